@@ -38,7 +38,7 @@ Theorem C09_ids_increasing : forall es s,
   let ids := resp_ids (snd (prun_gen s es)) in
   ids = zseq (p_next s + 1) (count_reqs es) /\ StronglySorted Z.lt ids /\ NoDup ids.
 Proof.
-  intros es s ids. unfold ids.
+  intros es s ids. unfold ids, prun_gen.
   rewrite (proj1 (prun_ids sco_queue_cap dresp_gen direct_raise_resp es s)).
   split; [reflexivity|]. split; [apply zseq_sorted|apply zseq_nodup].
 Qed.
@@ -153,6 +153,22 @@ Proof.
 Qed.
 Print Assumptions C09_completes_once.
 
+(* a response that completes the call at once (Fail, Cnclld, CnclldMan): whatever is reported for the
+   transaction -- nothing at all when the operation does not exist -- the result handle completes at the
+   response, exactly once, with the response's state and the parts of [id] received before it *)
+Theorem C09_refused_completes_once : forall id pre post s0 rst,
+  fresh id s0 -> noresp id pre = true -> noresp id post = true -> completing_gen rst = true ->
+  (count_parts pre <= recent_cap)%nat ->
+  let s' := crun_gen s0 (pre ++ CResp id rst :: post) in
+  aget id (c_pend s') = None /\ done_of id s' = [mkCR rst rst true (own_parts id pre)] /\ final rst = true.
+Proof.
+  intros id pre post s0 rst Hf Hn1 Hn2 Hc Hb s'.
+  destruct (cons_completing recent_cap consumer_keeps_early_parts completing_gen nonfinal_gen
+              id pre post s0 rst Hf Hn1 Hn2 Hc Hb) as [H1 H2].
+  rewrite keeps_gen_ok in H2. split; [exact H1|]. split; [exact H2|]. now apply completing_gen_final.
+Qed.
+Print Assumptions C09_refused_completes_once.
+
 (* ---------------------------------------------------------------- limits and the code as found *)
 Fixpoint foreign (n : nat) (tag : Z) : list cevent :=
   match n with O => [] | S k => CPart (mkCP 7 Fin tag) :: foreign k (tag + 1) end.
@@ -207,7 +223,4 @@ Example C09_nonvacuous :
   done_of 42 (crun_gen cinit ces) = [mkCR Fail Wait false [mkCP 42 Wait 0; mkCP 42 Start 2; mkCP 42 Fail 3]].
 Proof.
   vm_compute. repeat split; auto; try (repeat constructor; fail); try lia.
-  - repeat constructor.
-  - apply Merge_r. apply Merge_l. apply Merge_r. apply Merge_r. apply Merge_nil.
-  - intros H. discriminate H.
 Qed.
